@@ -9,6 +9,7 @@ CONSTANTS
   MaxFaults = 1
   AllowStop = TRUE
   AllowCancel = TRUE
+  AllowHalf = FALSE
   Reconnect = TRUE
   MaxAttempts = 2
   FixExitOrder = TRUE
